@@ -161,9 +161,9 @@ def job_irfft_rt(res, n, half):
 def job_odd(res, fn, n):
     """odd n must be rejected by an exception, with no UB before the throw"""
     nb = n; arr = [fsym(f'X{i}') for i in range(2 * nb)]
-    spec = [('pf64', arr), ('i32', nb), ('i32', n), ('pf64', [0.0] * max(n, 1))]
+    spec = [('pf64', arr), ('i32', nb), ('i32', n), ('pf64', [0.0] * (2 * n + 4))]      # room for a wrongly accepted request of up to 2n samples
     m, r, outs, st = run_once(res, fn, spec, f'{fn} odd n={n}')
-    conc = [('pf64', [0.25 * (i + 1) for i in range(2 * nb)]), ('i32', nb), ('i32', n), ('pf64', [0.0] * max(n, 1))]
+    conc = [('pf64', [0.25 * (i + 1) for i in range(2 * nb)]), ('i32', nb), ('i32', n), ('pf64', [0.0] * (2 * n + 4))]
     if st == 'throw' and not m.ub_found: res.ob(True, 'PATH', f'{fn} odd n={n}: ends in a throw with all memory obligations met'); return
     if st == 'fork': res.inc(f'{fn} odd n={n}: data-dependent control flow'); return
     why = f'{fn} with odd n={n}: ' + ('accepted (returned normally)' if st == 'ret' else f'undefined behaviour before the rejection: {st} {[u[1] for u in m.ub_found][:2]}')
@@ -294,6 +294,7 @@ def main(tier, seed):
         if n <= (32 if q else 42) or (not q and not _is_prime(n)): jobs.append((f'ifft(fft) n={n}', 'inv', dict(fn='h_ifft_fft', n=n), 3000))
         if n <= (16 if q else 64): jobs.append((f'IfftPlan n={n}', 'inv', dict(fn='h_ifftplan', n=n), 3000))
     ev = list(range(2, 49, 2)) if q else list(range(2, 129, 2))
+    for n in ev[:(8 if q else 24)]: jobs.append((f'irfft(X) one-argument n={n}', 'irfft', dict(fn='h_irfft1', n=n, nb=n), 3000))
     for n in ev:
         for nb in (n, n // 2 + 1):
             jobs.append((f'irfft n={n} nb={nb}', 'irfft', dict(fn='h_irfft', n=n, nb=nb), 3000))
@@ -302,7 +303,7 @@ def main(tier, seed):
     for n in ((1, 3, 5, 7) if q else (1, 3, 5, 7, 9, 15, 21, 33)):
         jobs.append((f'irfft odd n={n}', 'odd', dict(fn='h_irfft', n=n), 600))
         if n > 1: jobs.append((f'irfft n={n - 1} after odd', 'irfft_after_odd', dict(n=n - 1), 600))
-        jobs.append((f'IfftPlanR odd n={n}', 'odd', dict(fn='h_irfftplan', n=n), 600))
+        jobs.append((f'IfftPlanR odd n={n}', 'odd', dict(fn='h_irfftplan', n=n), 600)); jobs.append((f'irfft(X) one-argument odd n={n}', 'odd', dict(fn='h_irfft1', n=n), 600))
     # stft grid: every overlap (filtered by the real iscola), nwin <= nfft
     grid = []
     nffts = [8, 12, 16] if q else [8, 12, 16, 20, 32]
